@@ -111,8 +111,17 @@ def rule_payload_fork(ctx):
     ctx.check('payload_fork', 'single-construction', found == 1, p, '%d OpReturn construction(s)' % found)
     cs_ = prog.one('custom::compute_stack')
     ctx.touch(cs_)
-    r = canon(cs_.ret_expr())
-    ctx.check('payload_fork', 'payload-forwarded-unchanged', 'pattern: ScriptPattern::OpReturn{0: (a1.pattern as OpReturn).0}' in r, cs_, 'compute_stack forwards the payload string')
+    # whichever arm handles an OpReturn pattern (a dedicated one or the catch-all) hands the pattern on unchanged
+    arms = []
+    for d in cs_.ret_defs():
+        v = canon(cs_.rvalue_expr(d[3])) if d[0] == 'assign' else canon(cs_.call_expr(d[2]))
+        for g in util.path_guard_sets(cs_, d[1]):
+            pat = [x for x in g if x.startswith('a1.pattern is ')]
+            variants = pat[0][len('a1.pattern is '):].split('|') if pat else []
+            if 'OpReturn' in variants:
+                arms.append(v)
+    okf = bool(arms) and all(re.search(r'pattern: (ScriptPattern::OpReturn\{0: \(a1\.pattern as OpReturn\)\.0\}|a1\.pattern)\}', v) and 'address: Option::None{}' in v for v in arms)
+    ctx.check('payload_fork', 'payload-forwarded-unchanged', okf, cs_, 'compute_stack forwards the payload string: %s' % [v[-90:] for v in arms])
 
 
 def rule_print(ctx):
